@@ -33,4 +33,12 @@ theorem variant_rows : Gen.table.all (fun e =>
 example : (["C", "H", "O", "Cl", "Fe"].map (fun s => (Gen.table.find? (strSym s)).bind variantOf |>.isSome)) =
     [true, true, true, true, true] := by decide +kernel
 
+/-- the character-class table the driver instantiates the models with agrees with ASCII on ASCII: every theorem that asks for
+    `cc.AsciiOK` (the parser's totality, soundness and completeness; the specification text theorems) applies to the driver's
+    instance.  Beyond ASCII the table lists the characters the generators use; the orchestrator compares it with Rust's
+    `char::is_alphabetic` / `is_numeric` on every generated character on every run. -/
+theorem drvCC_asciiOK : drvCC.AsciiOK := by
+  unfold CharClass.AsciiOK
+  decide +kernel
+
 end Chem
